@@ -26,6 +26,22 @@ ALIASES = {
 }
 
 
+def all_forms(I, P):
+    """the reference forms (those with a formula in sa/specs/forms.py) followed by any further forms the package registers
+    itself (Potential_Form_Registry._register_standard -> 'as.NAME'); the latter get every rule that needs no reference
+    formula"""
+    reg = P.cls("atsim.potentials.config._potential_form_registry", "Potential_Form_Registry")
+    J = make_interp(P)
+    from .props.c06 import _form_tuple_hook
+    J.hooks["atsim.potentials.config._common:make_potential_form_tuple_from_function"] = _form_tuple_hook(P)
+    table = W.run_method(J, InstV(reg), "_register_standard", [])
+    if not isinstance(table, DictV):
+        raise AnalysisError("_register_standard did not return a dict")
+    names = sorted(k.v[3:] for k, _ in table.items.values() if isinstance(k, Const) and k.v.startswith("as."))
+    extra = [n for n in names if n not in FORMS]
+    return list(FORMS), extra
+
+
 def load_program():
     P = Program()
     P.add_file("spec.writers", os.path.join(SPEC_DIR, "writers.py"))
@@ -59,8 +75,15 @@ def manual_params(name, toks):
         if name == "constant" and t == "C":
             res.append("constant")
         else:
-            res.append(ALIASES.get(t, t))
+            res.append(ALIASES.get(t) or _plain(t))
     return res
+
+
+def _plain(tok):
+    """a LaTeX parameter token as an identifier: \\kappa -> kappa, C_{10} -> C_10, r_\\text{min} -> r_min"""
+    t = re.sub(r"\\text\{([^}]*)\}", r"\1", tok)
+    t = re.sub(r"\{([^}]*)\}", r"\1", t)
+    return t.replace("\\", "")
 
 
 def form_instance(I, P, name):
